@@ -120,6 +120,12 @@ def splitRun {S C : Type} (A B : C → S → S) : List (Bool × C) → S → S
   | (false, c) :: r, s => splitRun A B r (A c s)
   | (true, c) :: r, s => splitRun A B r (B c s)
 
+/-- run a list of primitive operators (any alphabet `O`: Kepler drift, interaction kick, jump step,
+    inner drift / inner kick of EOS …) through their maps, in application order -/
+def opRun {O S : Type} (φ : O → S → S) : List O → S → S
+  | [], s => s
+  | o :: r, s => opRun φ r (φ o s)
+
 /-- the WHFast-shaped step (safe mode): half Kepler drift, interaction kick, half Kepler drift -/
 def whStep {S C : Type} (kepler inter : C → S → S) (half : C → C) (τ : C) (s : S) : S :=
   kepler (half τ) (inter τ (kepler (half τ) s))
